@@ -398,13 +398,13 @@ impl Responder {
             let status = carrier.send_transaction(&tracker.penalty_tx);
             if let ConfirmationStatus::Rejected(_) = status {
                 rejected.push(uuid);
-            } else {
-                // DISCUSS: What if the tower was down for some time and was later force updated while this penalty got on-chain?
-                // Sending it will yield `ConfirmationStatus::IrrevocablyResolved` which would panic here.
-                // We might want to replace `ConfirmationStatus::IrrevocablyResolved` variant with
-                // `ConfirmationStatus::ConfirmedIn(height - IRREVOCABLY_RESOLVED)
+            } else if status.accepted() {
                 dbm.update_tracker_status(uuid, &status).unwrap();
             }
+            // Otherwise the status is `ConfirmationStatus::IrrevocablyResolved`: bitcoind already has the penalty
+            // in a block. That block is ahead of the one being processed (several blocks are being connected in a
+            // row, e.g. after being offline), so the confirmation will be recorded once we get to it. Nothing to
+            // update until then (this used to panic, taking the whole tower down, also on every later restart).
         }
 
         (!rejected.is_empty()).then_some(rejected)
